@@ -10,6 +10,7 @@ package c11
 import (
 	"context"
 	"encoding/json"
+	"errors"
 	"fmt"
 	"io"
 	"math/rand/v2"
@@ -33,14 +34,15 @@ import (
 )
 
 type event struct {
-	Kind     string        `json:"kind"` // change, refresh, sleep, probe, lookup
-	Name     string        `json:"name,omitempty"`
-	Back     bool          `json:"back,omitempty"`
-	D        time.Duration `json:"d,omitempty"`
-	Fail     []int         `json:"fail_requests,omitempty"` // indices (within the round) of requests that fail
-	FailKind string        `json:"fail_kind,omitempty"`
-	Hold     []int         `json:"hold_requests,omitempty"` // indices of requests held for D, with a change of Name in the middle
-	Result   string        `json:"result,omitempty"`
+	Kind      string        `json:"kind"` // change, refresh, sleep, probe, lookup
+	Name      string        `json:"name,omitempty"`
+	Back      bool          `json:"back,omitempty"`
+	D         time.Duration `json:"d,omitempty"`
+	Fail      []int         `json:"fail_requests,omitempty"` // indices (within the round) of requests that fail
+	FailKind  string        `json:"fail_kind,omitempty"`
+	CacheDown bool          `json:"cache_down,omitempty"`
+	Hold      []int         `json:"hold_requests,omitempty"` // indices of requests held for D, with a change of Name in the middle
+	Result    string        `json:"result,omitempty"`
 }
 
 type world struct {
@@ -155,7 +157,7 @@ func TestC11(t *testing.T) {
 		realServer(t, r)
 	}
 	r.Require("polls_ok", "polls_failed", "changes_forward", "changes_backward", "changes_inside_window", "expired_with_handle_polls",
-		"cadence_rounds", "cadence_cases_with_slow_service", "parked_cache_write_cases", "ticker_overlap_cases", "coalesced_refreshes", "coalesced_with_cancelled_leader", "coalesced_after_a_joiner_gave_up", "real_server_refreshes", "final_convergence_checks")
+		"cadence_rounds", "cadence_cases_with_slow_service", "parked_cache_write_cases", "ticker_overlap_cases", "coalesced_refreshes", "coalesced_with_cancelled_leader", "coalesced_after_a_joiner_gave_up", "polls_with_cache_down", "real_server_refreshes", "final_convergence_checks")
 	r.Rule("A: seeded histories of 8-25 events over 2-5 secrets (declared, looked-up, expiry-aged with a live unread handle): service changes (new version / re-activate an older one / bursts), Refresh with per-request failure and hold scripts (service changes inside the held window), sleeps up to several expiry ages, handle probes; oracle after every Refresh on the cache payload and at probes on handles. Plus cadence cases (background poller, instant service), coalescing cases (K refreshes while the first request is parked) and B: real server+client histories. Distinct = (event kind, poll outcome, backwards?, held?, expiry shape)")
 }
 
@@ -186,6 +188,13 @@ func bubbleCase(t *testing.T, r *evid.Run, idx int) {
 			expiry = time.Hour
 		}
 		cache := &fakesvc.MonCache{}
+		cacheDown := false // the cache cannot be written for the time being (disk full, read-only file system)
+		cache.WriteErr = func(int) error {
+			if cacheDown {
+				return errors.New("injected: cache write failed")
+			}
+			return nil
+		}
 		round, failedReqs := 0, 0
 		var failSet, holdSet map[int]bool
 		var failWith error = fakesvc.ErrInjected
@@ -226,9 +235,13 @@ func bubbleCase(t *testing.T, r *evid.Run, idx int) {
 			sort.Strings(out)
 			return out
 		}
+		cacheBehind := false // the last poll reported that it could not write the cache: until a poll succeeds the cache may lag
 		probe := func(name string, why string) {
 			got := string(handles[name].Get())
 			lastRead[name] = time.Now()
+			if cacheBehind {
+				return
+			}
 			p, err := payload(cache)
 			if err != nil {
 				fail("cache-not-a-document", err.Error(), nil)
@@ -291,6 +304,7 @@ func bubbleCase(t *testing.T, r *evid.Run, idx int) {
 				probe(ev.Name, "probe")
 			default:
 				ev.Kind = "refresh"
+				cacheDownThisPoll := rng.IntN(8) == 0
 				nk := len(known)
 				failSet, holdSet = map[int]bool{}, map[int]bool{}
 				if rng.IntN(3) == 0 {
@@ -345,9 +359,19 @@ func bubbleCase(t *testing.T, r *evid.Run, idx int) {
 				}
 				before, _ := payload(cache)
 				round, failedReqs = 0, 0
+				// now and then the cache cannot be written during this poll (and only during this one)
+				cacheDown = cacheDownThisPoll
+				if cacheDown {
+					ev.CacheDown = true
+					r.Count("polls_with_cache_down", 1)
+				}
+				cacheFailsBefore := cache.NumFailed()
 				t0 := time.Now()
 				err := st.Refresh(context.Background())
 				t1 := time.Now()
+				cacheDown = false
+				cacheFailed := cache.NumFailed() > cacheFailsBefore
+				cacheBehind = (cacheBehind && err != nil) || cacheFailed
 				synctest.Wait() // let a pending in-window change land before anything else happens
 				after, perr := payload(cache)
 				if perr != nil {
@@ -358,7 +382,7 @@ func bubbleCase(t *testing.T, r *evid.Run, idx int) {
 				if err != nil {
 					ev.Result = "error"
 					r.Count("polls_failed", 1)
-					if failedReqs == 0 {
+					if failedReqs == 0 && !cacheFailed {
 						fail("poll-fails-without-cause", fmt.Sprintf("Refresh reported %v although no request failed", err), nil)
 						return
 					}
